@@ -150,6 +150,7 @@ type Net struct {
 	start    time.Time
 	Events   []Stamp // every frame an engine transmitted (Rx false) or was handed (Rx true), in the order it happened
 	Closes   []Close // connection ends: who closed (an engine or the harness) and when
+	connNo   int     // connections established so far
 	Dials    int
 	Refused  int
 	connSeen int
@@ -160,6 +161,7 @@ func NewNet() *Net { return &Net{start: time.Now()} }
 // Stamp: one frame on the wire with its (virtual) instant.
 type Stamp struct {
 	T     time.Duration
+	Conn  int  // number of the connection (1, 2, ...) the frame travelled on
 	Rx    bool // false: the frame left an engine; true: the frame was handed to an engine
 	FromI bool // the frame travels from the initiator to the acceptor
 	Type  string
@@ -180,7 +182,7 @@ type Close struct {
 func (n *Net) Now() time.Duration { return time.Since(n.start) }
 
 func (n *Net) stamp(f []byte, fromI bool) Stamp {
-	st := Stamp{T: n.Now(), FromI: fromI}
+	st := Stamp{T: n.Now(), FromI: fromI, Conn: n.connNo}
 	if m, err := fixscan.Scan(f); err == nil {
 		st.Type, st.Seq, st.Dup = m.Type(), m.Seq(), m.PossDup()
 		st.ID, _ = m.Get(112)
@@ -278,6 +280,7 @@ func (n *Net) DialContext(ctx context.Context, network, addr string) (net.Conn, 
 		n.cur.kill()
 	}
 	n.cur = l
+	n.connNo++
 	n.mu.Unlock()
 	go l.pump(c2, true, n)
 	go l.pump(c3, false, n)
@@ -386,16 +389,18 @@ func (n *Net) Cut() {
 // ---- the applications ----
 
 type app struct {
-	mu        sync.Mutex
-	Delivered []string
-	Logons    int
-	Logouts   int
-	on        bool // an initiator is also told OnLogout when a logon attempt fails: counting would drift
-	now       func() time.Duration
-	Busy      time.Duration // the next FromApp keeps the session's goroutine busy for this long
-	BusyLog   [][2]time.Duration
-	LogonAt   []time.Duration
-	LogoutAt  []time.Duration
+	mu           sync.Mutex
+	Delivered    []string
+	Logons       int
+	Logouts      int
+	on           bool // an initiator is also told OnLogout when a logon attempt fails: counting would drift
+	now          func() time.Duration
+	Busy         time.Duration // the next FromApp keeps the session's goroutine busy for this long
+	BusyLog      [][2]time.Duration
+	OutsideLogon []string // application messages handed over outside the OnLogon..OnLogout interval
+	DoubleLogout int      // OnLogout without a logged-on period to end (acceptor side; an initiator is told of failed logon attempts too)
+	LogonAt      []time.Duration
+	LogoutAt     []time.Duration
 }
 
 func (a *app) OnCreate(quickfix.SessionID) {}
@@ -426,6 +431,9 @@ func (a *app) FromApp(m *quickfix.Message, _ quickfix.SessionID) quickfix.Messag
 	id, _ := m.Body.GetString(11)
 	a.mu.Lock()
 	a.Delivered = append(a.Delivered, id)
+	if !a.on {
+		a.OutsideLogon = append(a.OutsideLogon, id)
+	}
 	busy := a.Busy
 	a.Busy = 0
 	k := -1
